@@ -92,8 +92,12 @@ func (g *cliGen) genRequest() *cliReq {
 	if g.kind != "flow" && g.kind != "good" {
 		maxBody = 20000
 	}
+	noBody := 40
+	if g.kind == "flow" {
+		noBody = 8
+	}
 	switch b := r.intn(100); {
-	case b < 40:
+	case b < noBody:
 	case b < 70:
 		spec.body = g.genBody(maxBody)
 	default:
@@ -357,7 +361,7 @@ func (g *cliGen) grant() {
 		g.frame(f, blob{})
 	case 6:
 		f := newFrame('S', 0, 0)
-		f.settings = [][2]uint32{{3, uint32(r.pick(0, 1, 2, 100, 1<<31-1))}}
+		f.settings = [][2]uint32{{3, uint32(r.pick(0, 1, 2, 2, 100, 100, 1<<31-1, 1<<31, 1<<32-1))}}
 		g.frame(f, blob{})
 	case 7:
 		f := newFrame('S', 0, 0)
@@ -584,6 +588,7 @@ func (g *cliGen) fault() {
 	case 5:
 		g.do(&cliEvent{kind: "C1"})
 		// what happens between close(done) and the socket going
+		g.submit()
 		for i := r.intn(3); i > 0; i-- {
 			switch r.intn(3) {
 			case 0:
@@ -632,11 +637,34 @@ func (g *cliGen) fault() {
 	}
 }
 
+// download: a response large enough for the client to hand connection credit back
+func (g *cliGen) download() {
+	g.submit()
+	if len(g.streams) == 0 {
+		return
+	}
+	s := g.streams[0]
+	s.units = []string{"h"}
+	s.chunks = nil
+	s.trailers = nil
+	n := 30 + g.r.intn(12)
+	for i := 0; i < n; i++ {
+		s.chunks = append(s.chunks, genBlob(g.r.pick(16384, 16384, 16384, 16000), g.r.intn(1000)))
+		s.units = append(s.units, "d")
+	}
+	for len(s.units) > 1 && !g.run.hung {
+		g.sendUnit(s)
+		if g.r.chance(4) {
+			g.noise()
+		}
+	}
+}
+
 func (g *cliGen) firstSettings() [][2]uint32 {
 	r := g.r
 	var s [][2]uint32
 	if r.chance(40) {
-		s = append(s, [2]uint32{3, uint32(r.pick(1, 2, 3, 100, 1<<31-1))})
+		s = append(s, [2]uint32{3, uint32(r.pick(1, 2, 3, 100, 100, 1<<31-1, 1<<31-1, 1<<32-1))})
 	}
 	if r.chance(45) {
 		s = append(s, [2]uint32{4, uint32(r.pick(0, 1, 1000, 16384, 65535, 70000, 1<<20))})
@@ -668,7 +696,20 @@ func (c *genctx) genClientScenario(kind string) (string, string) {
 	g.groups = []string{g.run.handshakeView()}
 	nreq := 1 + r.intn(6)
 	steps := 12 + r.intn(40)
+	if kind == "download" {
+		g.download()
+		steps = 5
+	}
+	if (kind == "flow" || r.chance(30)) && nreq > 1 {
+		// several requests at once, before the server says anything
+		for i := 1 + r.intn(nreq); i > 0; i-- {
+			g.submit()
+		}
+	}
 	for i := 0; i < steps && !g.run.hung; i++ {
+		if !g.dead && g.run.conn.Closed() {
+			g.dead = true
+		}
 		a := r.intn(100)
 		left := nreq - g.nextTag
 		act := g.active()
@@ -733,6 +774,9 @@ func genClient(c *genctx) {
 	kinds := []string{"good", "goaway", "badmsg", "badframe", "flow", "races", "good", "flow"}
 	for i := 0; i < c.n; i++ {
 		kind := kinds[i%len(kinds)]
+		if i%24 == 23 {
+			kind = "download"
+		}
 		line, res := c.genClientScenario(kind)
 		c.st.size(strings.Count(line, " | "))
 		for _, k := range []string{"HANG", ":goaway:", ":nostreams:", ":closed:", ":timeout:", ":malformed:", ":conn:", ":write:", ":nil:", ":reset", "!bad", "!pool"} {
